@@ -141,7 +141,21 @@ pub fn run<P: Property>(args: RunArgs) -> ! {
     let t0 = Instant::now();
     let id = P::ID;
     let tier = args.tier;
-    let p = P::new(tier);
+    // the fixed applications of a check (echo application, handler catalogues, …) are built here through the public
+    // API. They build on the unchanged tree; if the framework now refuses or panics on them, that is a finding about the
+    // framework (a valid application turned away), not a crash of the check
+    let p = match std::panic::catch_unwind(|| P::new(tier)) {
+        Ok(p) => p,
+        Err(e) => {
+            let msg = e.downcast_ref::<String>().cloned().or_else(|| e.downcast_ref::<&str>().map(|s| s.to_string())).unwrap_or_else(|| "panic".into());
+            let rf = ReplayFile { property: id.into(), key: format!("fixed-application-refused-at-construction:{}", panic::stem(&msg).chars().take(60).collect::<String>()), detail: format!("building the check's fixed application(s) through the public API panicked: {msg}"), seed: args.seed, index: -1, case: serde_json::Value::Null };
+            let path = write_replay(&rf);
+            println!("VIOLATION property={id} replay={}", path.display());
+            println!("  key: {}", rf.key);
+            println!("  {}", rf.detail);
+            std::process::exit(1)
+        }
+    };
     let known = findings::for_property(id);
     let mut violations: Vec<(String, PathBuf, String)> = Vec::new(); // key, replay, detail
     let mut infra: Vec<String> = Vec::new();
